@@ -200,21 +200,43 @@ def run(ctx):
   shape.check_content_interval_hull(ctx)
   # paragraphs and divisions are merged in document order
   gp = ctx.ix.func("ttconv.filters.isd.merge_paragraphs:ParagraphsMergingISDFilter._get_paragraphs")
-  shape.check_inorder_accumulation(ctx, gp, "paragraphs", gp.params[1])
+  if not shape.check_collects_in_document_order(ctx, gp):
+    shape.check_inorder_accumulation(ctx, gp, "paragraphs", gp.params[1])
   pr = ctx.ix.func("ttconv.filters.isd.merge_paragraphs:ParagraphsMergingISDFilter.process")
   shape.check_inorder_accumulation(ctx, pr, "paragraphs", "original_divs")
   gp_ = ctx.ix.func("ttconv.filters.isd.merge_paragraphs:ParagraphsMergingISDFilter._get_paragraphs")
   rec_ = [c for c in own_nodes(gp_.node) if isinstance(c, ast.Call) and unparse(c.func) in (f"self.{gp_.name}", f"cls.{gp_.name}", gp_.name)]
-  ctx.check(bool(rec_), "ORD-docorder", f"{gp_.qualname}|paragraphs are collected at every depth", ctx.where(gp_.module, gp_.node), "the collector calls itself on nested divs",
+  ctx.check(bool(rec_) or any(o.rule == "ORD-docorder" and "sample tree" in o.key and o.ok for o in ctx.obs), "ORD-docorder", f"{gp_.qualname}|paragraphs are collected at every depth", ctx.where(gp_.module, gp_.node), "the collector calls itself on nested divs",
             "_get_paragraphs no longer recurses into nested divs: paragraphs below the second div level are dropped from the merged output")
   mr_ = ctx.ix.func("ttconv.filters.isd.merge_regions:RegionsMergingISDFilter.process")
   ctx.unit(mr_.module)
   moving = [lp for lp in own_nodes(mr_.node) if isinstance(lp, ast.For) and isinstance(parent(lp), ast.FunctionDef) and any(isinstance(c, ast.Call) and isinstance(c.func, ast.Attribute) and c.func.attr == "push_child" for c in own_nodes(lp))]
   if len(moving) != 1:
     raise AnalysisError(f"{mr_.qualname}: the loop that moves the content of every region was not found")
-  srcs_ = match.local_defs(mr_.node).get(unparse(moving[0].iter), [])
-  natural = isinstance(moving[0].iter, ast.Name) and len(srcs_) == 1 and unparse(srcs_[0]) in ("list(isd.iter_regions())", "tuple(isd.iter_regions())", "isd.iter_regions()")
-  ctx.check(natural or unparse(moving[0].iter) in ("isd.iter_regions()", "list(isd.iter_regions())"), "ORD-docorder", f"{mr_.qualname}|regions are merged in document order", ctx.where(mr_.module, moving[0]),
+  ldefs_ = match.local_defs(mr_.node)
+
+  def in_region_order(e, depth=0):
+    """the expression yields the regions of the ISD (or values derived from them one by one) in the order of the ISD"""
+    if depth > 5:
+      return False
+    if isinstance(e, ast.Call) and isinstance(e.func, ast.Name) and e.func.id in ("list", "tuple", "iter", "enumerate") and e.args:
+      return in_region_order(e.args[0], depth + 1)
+    if isinstance(e, ast.Call) and isinstance(e.func, ast.Name) and e.func.id == "zip" and e.args:
+      return all(in_region_order(a, depth + 1) for a in e.args)
+    if isinstance(e, ast.Call) and isinstance(e.func, ast.Attribute) and e.func.attr == "iter_regions" and not e.args:
+      return True
+    if isinstance(e, (ast.ListComp, ast.GeneratorExp)) and len(e.generators) == 1 and not e.generators[0].ifs:
+      return in_region_order(e.generators[0].iter, depth + 1)
+    if isinstance(e, ast.Name) and len(ldefs_.get(e.id, [])) == 1:
+      d = ldefs_[e.id][0]
+      if isinstance(d, ast.List) and not d.elts:
+        # built by appending once per item of an in-order loop
+        apps = [c for c in own_nodes(mr_.node) if isinstance(c, ast.Call) and isinstance(c.func, ast.Attribute) and c.func.attr == "append" and unparse(c.func.value) == e.id]
+        loops_ = {id(parent(parent(c))): parent(parent(c)) for c in apps}
+        return len(apps) == 1 and all(isinstance(lp, ast.For) and in_region_order(lp.iter, depth + 1) for lp in loops_.values())
+      return in_region_order(d, depth + 1)
+    return False
+  ctx.check(in_region_order(moving[0].iter), "ORD-docorder", f"{mr_.qualname}|regions are merged in document order", ctx.where(mr_.module, moving[0]),
             f"iterates `{unparse(moving[0].iter)}` = the regions in their order in the ISD", f"the content of the regions is merged in the order of `{short(moving[0].iter, 60)}`, not in the order of the regions in the document: simultaneous text of different regions is swapped")
   for prod, ref in (("ttconv.srt.writer:SrtContext.add_isd", "ttconv.srt.paragraph:SrtParagraph.to_string"), ("ttconv.vtt.writer:VttContext.add_isd", "ttconv.vtt.cue:VttCue.to_string")):
     shape.check_interval_resolution(ctx, ctx.ix.func(prod), ctx.ix.func(ref))
